@@ -529,11 +529,12 @@ class Prog:
             if p in seen or p is None:
                 continue
             seen.add(p)
-            b = self.bodies.get(p)
+            b = self.bodies.get(p) or self.bodies.get(cbody.crate + '::' + p)
             if b is not None:
                 out.append(b)
                 continue
-            for k in getattr(self, 'inlined_into', {}).get(p, ()):
+            into = getattr(self, 'inlined_into', {})
+            for k in list(into.get(p, ())) + list(into.get(cbody.crate + '::' + p, ())):
                 work.append(k)
         return out
 
